@@ -1,81 +1,81 @@
 (* C01 — exported theorems only: each is closed by [exact] and followed by Print Assumptions. *)
 From Coq Require Import List ZArith Bool.
-From Verif Require Import Lib.Vec2 Lib.Interleave C01.Model C01.Spec C01.Proofs_Base C01.Proofs_Unique C01.Proofs_Reset C01.Proofs_Main C01.Proofs_Conc C01.Plugin C01.Proofs_Findings C01.Codec C01.Proofs_Ghost C01.Proofs_Spec C01.Root C01.Proofs_Root.
+From Verif Require Import Lib.VecN Lib.Interleave C01.Dim2 C01.Model C01.Spec C01.Proofs_Base C01.Proofs_Unique C01.Proofs_Reset C01.Proofs_Main C01.Proofs_Conc C01.Plugin C01.Proofs_Findings C01.Codec C01.Proofs_Ghost C01.Proofs_Spec C01.Root C01.Proofs_Root.
 Import ListNotations.
 Open Scope Z_scope.
 
 (* Main theorem: after ANY finite history that obeys the informer discipline, and after every
    prefix of it, every figure GetQuotaSummaries reports equals its from-scratch recomputation from
    the surviving objects (decision procedure of Spec.v returns 0). *)
-Theorem c01_accounting_exact : forall sm dm h,
+Theorem c01_accounting_exact : forall (D : Dim) sm dm h,
   wf_init sm dm = true -> wf_history (init sm dm) h = true ->
   state_code (run (init sm dm) h) = 0 /\
   forall s', In s' (trace (init sm dm) h) -> state_code s' = 0.
-Proof. exact accounting_exact. Qed.
+Proof. exact (@accounting_exact). Qed.
 Print Assumptions c01_accounting_exact.
 
 (* the decision procedure decides the Prop *)
-Theorem c01_decision_sound : forall s, state_code s = 0 <-> state_ok s.
-Proof. exact state_code_ok. Qed.
+Theorem c01_decision_sound : forall (D : Dim) s, state_code s = 0 <-> state_ok s.
+Proof. exact (@state_code_ok). Qed.
 Print Assumptions c01_decision_sound.
 
 (* one operation preserves the invariant (tree shape, local equations, no clamp needed) *)
-Theorem c01_step_invariant : forall s o, Inv2 s -> wf_op s o = true -> Inv2 (step s o).
-Proof. exact step_inv. Qed.
+Theorem c01_step_invariant : forall (D : Dim) s o, Inv2 s -> wf_op s o = true -> Inv2 (step s o).
+Proof. exact (@step_inv). Qed.
 Print Assumptions c01_step_invariant.
 
 (* on a well-formed tree the local equations have one solution: the recomputation *)
-Theorem c01_local_eqs_unique : forall s, Inv s -> state_ok s.
-Proof. exact inv_state_ok. Qed.
+Theorem c01_local_eqs_unique : forall (D : Dim) s, Inv s -> state_ok s.
+Proof. exact (@inv_state_ok). Qed.
 Print Assumptions c01_local_eqs_unique.
 
-Theorem c01_nonneg : forall sm dm h,
+Theorem c01_nonneg : forall (D : Dim) sm dm h,
   wf_init sm dm = true -> wf_history (init sm dm) h = true ->
   forall q, In q (st_sh (run (init sm dm) h)) ->
     nonneg_r (st_r (run (init sm dm) h) (q_name q)) = true /\ nonneg_u (st_u (run (init sm dm) h) (q_name q)) = true.
-Proof. exact figures_nonneg. Qed.
+Proof. exact (@figures_nonneg). Qed.
 Print Assumptions c01_nonneg.
 
-Theorem c01_no_double_count : forall sm dm h,
+Theorem c01_no_double_count : forall (D : Dim) sm dm h,
   wf_init sm dm = true -> wf_history (init sm dm) h = true -> NoDup (all_pod_ids (run (init sm dm) h)).
-Proof. exact no_double_count. Qed.
+Proof. exact (@no_double_count). Qed.
 Print Assumptions c01_no_double_count.
 
 (* resetQuotaNoLock (the code's own full rebuild) reproduces the incrementally kept figures *)
-Theorem c01_rebuild_agrees : forall s, Inv2 s -> forall q, In q (st_sh s) ->
+Theorem c01_rebuild_agrees : forall (D : Dim) s, Inv2 s -> forall q, In q (st_sh s) ->
   st_r (reset s) (q_name q) = st_r s (q_name q) /\ st_u (reset s) (q_name q) = st_u s (q_name q).
-Proof. exact rebuild_agrees. Qed.
+Proof. exact (@rebuild_agrees). Qed.
 Print Assumptions c01_rebuild_agrees.
 
 (* two managers holding the same objects report the same figures, however they got there *)
-Theorem c01_figures_determined_by_objects : forall s1 s2,
+Theorem c01_figures_determined_by_objects : forall (D : Dim) s1 s2,
   state_ok s1 -> state_ok s2 -> st_sh s1 = st_sh s2 -> (forall k, st_p s1 k = st_p s2 k) ->
   forall q, In q (st_sh s1) ->
     st_r s1 (q_name q) = st_r s2 (q_name q) /\ st_u s1 (q_name q) = st_u s2 (q_name q).
-Proof. exact figures_determined. Qed.
+Proof. exact (@figures_determined). Qed.
 Print Assumptions c01_figures_determined_by_objects.
 
 (* the "counted request" of every cached pod (the ghost the invariant sums) is the request of the
    object the history delivered last for that pod: this is how Codec.mk_pinfo reconstructs it when
    the IMPLEMENTATION's observable is judged, so what is proved is what is compared *)
-Theorem c01_ghost_is_last_delivered : forall sm dm h,
+Theorem c01_ghost_is_last_delivered : forall (D : Dim) sm dm h,
   wf_init sm dm = true -> wf_history (init sm dm) h = true ->
   ghost_matches h (run (init sm dm) h) = true.
-Proof. exact ghost_matches_holds. Qed.
+Proof. exact (@ghost_matches_holds). Qed.
 Print Assumptions c01_ghost_is_last_delivered.
 
 (* the quota attributes the model reports (parent, flags, max, min) are those of the ElasticQuota
    objects the history delivered last — for EVERY history; prop_case compares the implementation's
    reported attributes with that history-derived list (clause 14) *)
-Theorem c01_shapes_follow_history : forall h s n,
+Theorem c01_shapes_follow_history : forall (D : Dim) h s n,
   find (st_sh (run s h)) n = find (spec_shapes (st_sh s) h) n.
-Proof. exact shapes_follow_history. Qed.
+Proof. exact (@shapes_follow_history). Qed.
 Print Assumptions c01_shapes_follow_history.
 
-Theorem c01_shapes_check_holds : forall sm dm h,
+Theorem c01_shapes_check_holds : forall (D : Dim) sm dm h,
   wf_init sm dm = true -> wf_history (init sm dm) h = true ->
   shapes_eqb (st_sh (run (init sm dm) h)) (spec_shapes (st_sh (init sm dm)) h) = true.
-Proof. exact shapes_eqb_holds. Qed.
+Proof. exact (@shapes_eqb_holds). Qed.
 Print Assumptions c01_shapes_check_holds.
 
 (* ---------- the root entry (koordinator-root-quota) ---------- *)
@@ -84,66 +84,68 @@ Print Assumptions c01_shapes_check_holds.
    sums over the quotas directly under it (max-limited, min-raised requests; plain sums of the pods
    of the subtrees) after every operation of every well-formed history along which the tree is never
    rebuilt while system/default ask for more than their max (benign_history, boolean) *)
-Theorem c01_root_exact : forall sm dm h,
+Theorem c01_root_exact : forall (D : Dim) sm dm h,
   wf_init sm dm = true -> wf_history (init sm dm) h = true -> benign_history (init sm dm) h = true ->
   root_code (x_s (xrun (xinit sm dm) h)) (x_root (xrun (xinit sm dm) h)) = 0 /\
   forall x', In x' (xtrace (xinit sm dm) h) -> root_code (x_s x') (x_root x') = 0.
-Proof. exact root_exact. Qed.
+Proof. exact (@root_exact). Qed.
 Print Assumptions c01_root_exact.
 
-Theorem c01_root_decision_sound : forall s ro, root_code s ro = 0 <-> ro = rc_root s.
-Proof. exact root_code_ok. Qed.
+Theorem c01_root_decision_sound : forall (D : Dim) s ro, root_code s ro = 0 <-> ro = rc_root s.
+Proof. exact (@root_code_ok). Qed.
 Print Assumptions c01_root_decision_sound.
 
 (* the root layer never feeds back into the tree: all theorems about [run] speak about [xrun] *)
-Theorem c01_root_layer_projects : forall h x, x_s (xrun x h) = run (x_s x) h.
-Proof. exact root_layer_projects. Qed.
+Theorem c01_root_layer_projects : forall (D : Dim) h x, x_s (xrun x h) = run (x_s x) h.
+Proof. exact (@root_layer_projects). Qed.
 Print Assumptions c01_root_layer_projects.
+
+Local Existing Instance D2.
 
 (* without the hypothesis: ResetQuota while the default quota is max-limited leaves a phantom request
    in the root entry for ever (findings/C01-root-reset.md) *)
 Theorem c01_root_reset_refuted :
-  wf_init (1000, 1000) (20, 20) = true /\ wf_history (init (1000, 1000) (20, 20)) ex_root_reset = true /\
-  benign_history (init (1000, 1000) (20, 20)) ex_root_reset = false /\
-  (let x := xrun (xinit (1000, 1000) (20, 20)) ex_root_reset in
+  wf_init (v2 1000 1000) (v2 20 20) = true /\ wf_history (init (v2 1000 1000) (v2 20 20)) ex_root_reset = true /\
+  benign_history (init (v2 1000 1000) (v2 20 20)) ex_root_reset = false /\
+  (let x := xrun (xinit (v2 1000 1000) (v2 20 20)) ex_root_reset in
    state_code (x_s x) = 0 /\ root_code (x_s x) (x_root x) = 15 /\
-   ro_req (x_root x) = (10, 10) /\ ro_req (rc_root (x_s x)) = (0, 0)) /\
-  (let x := xrun (xinit (1000, 1000) (20, 20)) (firstn 2 ex_root_reset) in
-   ro_req (x_root x) = (30, 30) /\ ro_req (rc_root (x_s x)) = (20, 20)).
+   ro_req (x_root x) = (v2 10 10) /\ ro_req (rc_root (x_s x)) = (v2 0 0)) /\
+  (let x := xrun (xinit (v2 1000 1000) (v2 20 20)) (firstn 2 ex_root_reset) in
+   ro_req (x_root x) = (v2 30 30) /\ ro_req (rc_root (x_s x)) = (v2 20 20)).
 Proof. exact root_reset_refuted. Qed.
 Print Assumptions c01_root_reset_refuted.
 
 (* ---------- concurrency ---------- *)
 
 (* the atomic sections of a pod handler, run one after the other, are the handler *)
-Theorem c01_sections_refine : forall s o,
+Theorem c01_sections_refine : forall (D : Dim) s o,
   match o with
   | OpPodAdd _ _ | OpPodUpdate _ _ _ _ | OpPodDelete _ _ => exec act s (sections s o) = step s o
   | _ => True
   end.
-Proof. exact sections_refine. Qed.
+Proof. exact (@sections_refine). Qed.
 Print Assumptions c01_sections_refine.
 
 (* handlers for pairwise distinct pods that run concurrently (they only hold the read side of
    hierarchyUpdateLock): EVERY interleaving of their atomic sections, from a consistent state, ends
    in a consistent state whose figures equal the from-scratch recomputation *)
-Theorem c01_any_interleaving : forall s0 ops l,
+Theorem c01_any_interleaving : forall (D : Dim) s0 ops l,
   Inv2 s0 ->
   (forall o, In o ops -> rl_op o /\ wf_op s0 o = true) ->
   NoDup (map op_pod ops) ->
   interleaving (map (sections s0) ops) l ->
   Inv2 (exec act s0 l) /\ state_code (exec act s0 l) = 0.
-Proof. exact any_interleaving. Qed.
+Proof. exact (@any_interleaving). Qed.
 Print Assumptions c01_any_interleaving.
 
 (* ---------- non-vacuity: a history that obeys the discipline and uses every operation ---------- *)
 
-Definition ex_pod (id c m : Z) (np bound : bool) : pod := mkPod id (c, m) np bound false.
+Definition ex_pod (id c m : Z) (np bound : bool) : pod := mkPod id (v2 c m) np bound false.
 Definition ex_history : list op :=
-  [ OpQuotaUpdate (mkQ 3 0 true true (30, 30) (5, 5));
-    OpQuotaUpdate (mkQ 4 3 false false (10, 10) (4, 4));
-    OpQuotaUpdate (mkQ 5 3 false true (10, 10) (0, 0));
-    OpQuotaUpdate (mkQ 6 0 true true (50, 50) (0, 0));
+  [ OpQuotaUpdate (mkQ 3 0 true true (v2 30 30) (v2 5 5));
+    OpQuotaUpdate (mkQ 4 3 false false (v2 10 10) (v2 4 4));
+    OpQuotaUpdate (mkQ 5 3 false true (v2 10 10) (v2 0 0));
+    OpQuotaUpdate (mkQ 6 0 true true (v2 50 50) (v2 0 0));
     OpPodAdd 4 (ex_pod 1 7 20 false false);
     OpPodAdd 5 (ex_pod 2 3 3 true true);
     OpReserve 4 (ex_pod 1 7 20 false false);
@@ -151,32 +153,32 @@ Definition ex_history : list op :=
     OpUnreserve 4 (ex_pod 1 9 2 true true);
     OpPodAdd 2 (ex_pod 3 1 1 false true);
     OpMigrate (ex_pod 3 1 1 false true) 2 5;
-    OpQuotaUpdate (mkQ 4 6 false false (8, 8) (4, 4));      (* re-parent *)
-    OpQuotaUpdate (mkQ 5 3 false false (10, 10) (6, 6));     (* lend flag: full rebuild *)
-    OpQuotaUpdate (mkQ 3 6 true true (30, 30) (5, 5));       (* re-parent a subtree *)
+    OpQuotaUpdate (mkQ 4 6 false false (v2 8 8) (v2 4 4));      (* re-parent *)
+    OpQuotaUpdate (mkQ 5 3 false false (v2 10 10) (v2 6 6));     (* lend flag: full rebuild *)
+    OpQuotaUpdate (mkQ 3 6 true true (v2 30 30) (v2 5 5));       (* re-parent a subtree *)
     OpPodUpdate 5 4 (ex_pod 1 9 2 true true) (ex_pod 1 9 2 true true);   (* pod changes its quota *)
     OpNode; OpReset;
     OpPodDelete 5 (ex_pod 2 3 3 true true);
     OpQuotaDelete 4 ].
 
 Example c01_wf_nonvacuous :
-  wf_init (1000, 1000) (1000, 1000) = true /\ wf_history (init (1000, 1000) (1000, 1000)) ex_history = true.
+  wf_init (v2 1000 1000) (v2 1000 1000) = true /\ wf_history (init (v2 1000 1000) (v2 1000 1000)) ex_history = true.
 Proof. vm_compute. split; reflexivity. Qed.
 
 (* ... and along which the figures are not trivially zero *)
 Example c01_example_figures :
-  let s := run (init (1000, 1000) (1000, 1000)) (firstn 15 ex_history) in
-  (r_req (st_r s 6), r_creq (st_r s 3), u_used (st_u s 6)) = ((14, 10), (10, 6), (13, 6)).
+  let s := run (init (v2 1000 1000) (v2 1000 1000)) (firstn 15 ex_history) in
+  (r_req (st_r s 6), r_creq (st_r s 3), u_used (st_u s 6)) = ((v2 14 10), (v2 10 6), (v2 13 6)).
 Proof. vm_compute. reflexivity. Qed.
 
 (* non-vacuity of the hypothesis: the example history (which rebuilds the tree twice) is benign *)
 Example c01_root_benign_nonvacuous :
-  benign_history (init (1000, 1000) (1000, 1000)) ex_history = true /\
-  ro_req (x_root (xrun (xinit (1000, 1000) (1000, 1000)) (firstn 15 ex_history))) = (14, 10).
+  benign_history (init (v2 1000 1000) (v2 1000 1000)) ex_history = true /\
+  ro_req (x_root (xrun (xinit (v2 1000 1000) (v2 1000 1000)) (firstn 15 ex_history))) = (v2 14 10).
 Proof. vm_compute. split; reflexivity. Qed.
 
 (* a genuine interleaving of three concurrent handlers (add, update with quota change, delete) *)
-Definition ex_s0 : state := run (init (1000, 1000) (1000, 1000)) (firstn 11 ex_history).
+Definition ex_s0 : state := run (init (v2 1000 1000) (v2 1000 1000)) (firstn 11 ex_history).
 Definition ex_conc_ops : list op :=
   [ OpPodAdd 5 (ex_pod 7 4 4 false true);
     OpPodUpdate 5 4 (ex_pod 1 9 2 true true) (ex_pod 1 9 2 true true);
@@ -193,14 +195,14 @@ Proof. vm_compute. repeat split; reflexivity. Qed.
    figures differ from the recomputation (double count / phantom usage of a pod that arrived before
    its quota): see findings/C01-default-quota-routing.md *)
 Theorem c01_plugin_routing_refuted :
-  (pwf_history (pinit (1000, 1000) (1000, 1000)) ex_double_count = true /\
-   pstate_code (prun (pinit (1000, 1000) (1000, 1000)) ex_double_count) = 1 /\
-   r_req (st_r (ps_core (prun (pinit (1000, 1000) (1000, 1000)) ex_double_count)) 3) = (20, 20)) /\
-  (pwf_history (pinit (1000, 1000) (1000, 1000)) ex_stale_migrate = true /\
-   pstate_code (prun (pinit (1000, 1000) (1000, 1000)) ex_stale_migrate) = 1 /\
-   r_req (st_r (ps_core (prun (pinit (1000, 1000) (1000, 1000)) ex_stale_migrate)) 2) = (20, 20)) /\
-  (pwf_history (pinit (1000, 1000) (1000, 1000)) ex_lost_delete = true /\
-   pstate_code (prun (pinit (1000, 1000) (1000, 1000)) ex_lost_delete) = 1 /\
-   u_used (st_u (ps_core (prun (pinit (1000, 1000) (1000, 1000)) ex_lost_delete)) 3) = (10, 10)).
+  (pwf_history (pinit (v2 1000 1000) (v2 1000 1000)) ex_double_count = true /\
+   pstate_code (prun (pinit (v2 1000 1000) (v2 1000 1000)) ex_double_count) = 1 /\
+   r_req (st_r (ps_core (prun (pinit (v2 1000 1000) (v2 1000 1000)) ex_double_count)) 3) = (v2 20 20)) /\
+  (pwf_history (pinit (v2 1000 1000) (v2 1000 1000)) ex_stale_migrate = true /\
+   pstate_code (prun (pinit (v2 1000 1000) (v2 1000 1000)) ex_stale_migrate) = 1 /\
+   r_req (st_r (ps_core (prun (pinit (v2 1000 1000) (v2 1000 1000)) ex_stale_migrate)) 2) = (v2 20 20)) /\
+  (pwf_history (pinit (v2 1000 1000) (v2 1000 1000)) ex_lost_delete = true /\
+   pstate_code (prun (pinit (v2 1000 1000) (v2 1000 1000)) ex_lost_delete) = 1 /\
+   u_used (st_u (ps_core (prun (pinit (v2 1000 1000) (v2 1000 1000)) ex_lost_delete)) 3) = (v2 10 10)).
 Proof. exact plugin_routing_refuted. Qed.
 Print Assumptions c01_plugin_routing_refuted.
